@@ -149,8 +149,8 @@ func (r *Run) Add(k string, n int) {
 	r.extra[k] = x + n
 	r.mu.Unlock()
 }
-func (r *Run) Rule(s string)       { r.rule = s }
-func (r *Run) Assume(s ...string)  { r.assumptions = append(r.assumptions, s...) }
+func (r *Run) Rule(s string)      { r.rule = s }
+func (r *Run) Assume(s ...string) { r.assumptions = append(r.assumptions, s...) }
 func (r *Run) NotExhaustive(why string) {
 	r.mu.Lock()
 	r.exhaustive = false
